@@ -248,6 +248,14 @@ class Vocabulary(Mapping):
                 obj=self,
             )
 
+        if len(p) != self.dimensions:
+            raise ValidationError(
+                f"Cannot add a semantic pointer with {len(p)} dimensions to a "
+                f"{self.dimensions}-dimensional vocabulary.",
+                attr="",
+                obj=self,
+            )
+
         self._key2idx[key] = len(self._key2idx)
         self._keys.append(key)
         self._vectors = np.vstack([self._vectors, p.v])
